@@ -35,7 +35,7 @@ def run(R, ctx):
     c01.index_table(_As(R, 'R06.6'), ctx)
     c01.order_rules(_As(R, 'R06.6'), ctx)
     listing_predicates(R, ctx)
-
+    family_predicate_proxy(R, ctx, 'R06.8', 'the listing that start index, restart numbers and the latest file are taken from recognises exactly the family (shared with R14.2)')
 
 class _As:
     def __init__(self, R, to):
